@@ -288,6 +288,12 @@ Fails(G, S, ln) ==
     [] ln.k = "quiet"  -> QuietFails(G, S, ln)
     [] ln.k = "resume" -> ResumeFails(G, S, ln)
     [] ln.k = "runret" -> IF S.run.active THEN RunretFails(G, S, ln) ELSE {<<"M", "runret_without_run">>}
+    [] ln.k = "escape" ->
+         \* an exception left flush() / tick() / run(): the loop did not survive a handler (C04); x = 1: the
+         \* exception came from circuits' own code.  SystemExit leaving run() is reported by runret, not here.
+         IF ln.n = "SystemExit" /\ S.run.active THEN {}
+         ELSE {<<"C04", "escaped">>} \cup (IF S.waits # {} THEN {<<"C06", "escaped">>} ELSE {})
+                                     \cup (IF S.run.n > 0 THEN {<<"C08", "escaped">>} ELSE {})
     [] ln.k = "yld"    -> IF ln.f = 1 /\ WaitOf(S, ln.e, ln.h) # {} THEN {<<"C06", "double_suspend">>} ELSE {}
     [] OTHER -> {}
 
@@ -358,7 +364,8 @@ ApplyOp(G, S, ln) ==
     [] ln.n = "flush"  -> [S EXCEPT !.nflush = @ + 1]
     [] ln.n \in {"reg", "unreg", "addh", "rmh"} -> StructOp(G, S, ln)
     [] ln.n \in {"stopmgr", "exit", "stop2", "kbint"} ->
-         IF S.run.active /\ ~S.run.stopreq
+         \* stop() called on a component that is not the running manager has no effect
+         IF S.run.active /\ ~S.run.stopreq /\ (ln.n \in {"exit", "kbint"} \/ ln.c = S.run.c)
          THEN [S EXCEPT !.run.stopreq = TRUE, !.run.code = IF ln.n = "kbint" THEN -1 ELSE ln.x] ELSE S
     [] OTHER -> S
 
